@@ -30,6 +30,8 @@ def case(ctx, rng, idx, state):
     keys = ("Ham", "AA") if rng.random() < 0.4 else ("Ham",)
     system = gen_systems.herm_system(rng, num_wann=nw, radius=rng.uniform(1.0, 2.6), keys=keys, centers=cmode,
                                      thin=rng.choice([0.0, 0.3]))
+    system, hist = gen_systems.history_variant(rng, system, which=gen_systems.HISTORIES_NO_DISK[idx % 4])   # state reached through the API first
+    ctx.count(f"history_{hist}")
     iR = system.rvec.iRvec
     lattice = system.real_lattice
     tl = system.wannier_centers_red
@@ -46,7 +48,7 @@ def case(ctx, rng, idx, state):
     ksel = np.arange(nk) if nk <= 24 else np.sort(rng.choice(nk, 24, replace=False))
     libs = ["fftw", "numpy"] + (["slow"] if nk <= 48 else [])
     ders = [0, 1, 2, 3] if nk * nw * nw * len(iR) < 60000 else [0, 1, 2]
-    wit = dict(nw=nw, NK=NK, dK=dK, nR=len(iR), centers=cmode, keys=keys, aliasing=aliasing)
+    wit = dict(history=hist, nw=nw, NK=NK, dK=dK, nR=len(iR), centers=cmode, keys=keys, aliasing=aliasing)
 
     ref = {}
     for key in keys:
